@@ -946,6 +946,19 @@ fn forwarded_oracle(f: &Forwarded) -> Option<String> {
     }
 }
 
+/// "keywords outside the defined set are rejected with an error rather than mapped to a default",
+/// at record level: a changes-file / package-list line that was ACCEPTED has one of the five
+/// priority keywords as its fourth white-space token (C18_changesfile_rejects_priority,
+/// C18_pkgentry_rejects_priority)
+fn priority_rejected(text: &str) -> Option<String> {
+    match text.split_whitespace().nth(3) {
+        Some(p) if !["required", "important", "standard", "optional", "extra"].contains(&p) => {
+            Some(format!("accepted although the priority token {:?} is not a priority keyword", p))
+        }
+        _ => None,
+    }
+}
+
 fn license_show(l: &License) -> String {
     match l {
         License::Name(n) => format!("ok Name {}", es(n)),
@@ -997,11 +1010,17 @@ fn handle_parse(ty: &str, a: &[&str]) -> Option<Resp> {
         ("Sha256Checksum", [t]) => Some(sha256::parse(&ds(t)?)),
         ("Sha512Checksum", [t]) => Some(sha512::parse(&ds(t)?)),
         ("File", [t]) => Some(match File::from_str(&ds(t)?) {
-            Ok(c) => Resp::with(file_show(&c), file_oracle(&c).or_else(|| text_side(&ds(t)?, &c.to_string(), canon_text_file(&ds(t)?)))),
+            Ok(c) => Resp::with(
+                file_show(&c),
+                priority_rejected(&ds(t)?).or_else(|| file_oracle(&c)).or_else(|| text_side(&ds(t)?, &c.to_string(), canon_text_file(&ds(t)?))),
+            ),
             Err(_) => Resp::ok("err".into()),
         }),
         ("PackageListEntry", [t]) => Some(match PackageListEntry::from_str(&ds(t)?) {
-            Ok(e) => Resp::with(ple_show(&e), ple_oracle(&e).or_else(|| text_side(&ds(t)?, &e.to_string(), canon_text_ple(&ds(t)?)))),
+            Ok(e) => Resp::with(
+                ple_show(&e),
+                priority_rejected(&ds(t)?).or_else(|| ple_oracle(&e)).or_else(|| text_side(&ds(t)?, &e.to_string(), canon_text_ple(&ds(t)?))),
+            ),
             Err(_) => Resp::ok("err".into()),
         }),
         ("BuildProfile", [t]) => Some(match BuildProfile::from_str(&ds(t)?) {
@@ -1361,6 +1380,8 @@ const TOKENS: &[&str] = &[
     "Git", "\u{1f600}", "a\u{301}",
     // letter case: a value that is not a keyword keeps its spelling (after seeded change C18-r5m2)
     "Ab", "https://Example.org/Pull/42", "NO", "Not-Needed", "D41D8CD98F00B204", "\u{130}x",
+    // placeholders real files use where a keyword is expected (dpkg-genchanges writes `-`)
+    "-", "--", "unknown", "none",
 ];
 /// outside the property's domain (white space inside / empty): correspondence only
 const NON_TOKENS: &[&str] = &[
@@ -1495,6 +1516,14 @@ pub fn generate_c18(tier: &str, seed: u64, out: &mut Out) {
     }
     for l in lists_upto(&["a", "5", "optional", "extra", "é"], 5) {
         out.req("codec.File.parse", &[es(&l.join(" "))]);
+    }
+    // every token of the pool (placeholders such as `-`, other types' keywords, case variants) in
+    // the priority column of an otherwise well-formed line: accepted only for the five keywords
+    for p in TOKENS.iter() {
+        out.req("codec.File.parse", &[es(&format!("d41d8cd9 10 utils {} a_1.0.dsc", p))]);
+        out.req("codec.File.parse", &[es(&format!("d41d8cd9 10 - {} a_1.0.dsc", p))]);
+        out.req("codec.PackageListEntry.parse", &[es(&format!("pkg deb utils {}", p))]);
+        out.req("codec.PackageListEntry.parse", &[es(&format!("pkg deb utils {} arch=any", p))]);
     }
     for m in &toks {
         for p in ["required", "important", "standard", "optional", "extra"] {
